@@ -68,16 +68,64 @@ struct Peek : yaclib::detail::BaseCore {
 // recorder where the event's counter lives; it adds no behaviour.
 std::ptrdiff_t gCountOffset = 0;
 bool gNaming = false;
+// address ranges of wait events that have been destroyed in this execution (and not been overwritten by a new one)
+std::vector<std::pair<const char*, const char*>> gDeadEvents;
 struct TracedEvent : yaclib::detail::MutexEvent {
+  static constexpr std::size_t kSpan = sizeof(yaclib::detail::MutexEvent) + 2 * sizeof(std::size_t);
   TracedEvent() {
-    if (gNaming && vx::gCtx != nullptr) vx::gCtx->NameObj(reinterpret_cast<char*>(this) + gCountOffset, "cnt", true);
+    if (!gNaming || vx::gCtx == nullptr) return;
+    auto* b = reinterpret_cast<const char*>(this);
+    for (auto it = gDeadEvents.begin(); it != gDeadEvents.end();) {
+      if (it->first < b + kSpan && b < it->second) it = gDeadEvents.erase(it);  // the stack slot lives again
+      else ++it;
+    }
+    vx::gCtx->NameObj(reinterpret_cast<char*>(this) + gCountOffset, "cnt", true);
   }
   ~TracedEvent() {
-    if (gNaming && vx::gCtx != nullptr) vx::gCtx->ForgetObj(reinterpret_cast<char*>(this) + gCountOffset);
+    if (!gNaming || vx::gCtx == nullptr) return;
+    vx::gCtx->ForgetObj(reinterpret_cast<char*>(this) + gCountOffset);
+    auto* b = reinterpret_cast<const char*>(this);
+    gDeadEvents.emplace_back(b, b + kSpan);
   }
 };
 
+// A violation that must end the process at once: the library is about to operate on a destroyed stack object (what happens
+// next is undefined: with the fiber backend typically an endless walk through a garbage wait queue).  Reported like a crash:
+// scenario + choice sequence + trace, then exit.
+[[noreturn]] void FatalViolation(const std::string& msg) {
+  auto* ex = vx::gExplorer;
+  if (ex != nullptr) {
+    ++ex->stats.violations;
+    ++ex->stats.executions;
+    std::string v = "violation: " + msg + "\nscenario: " + ex->current_header + "\nchoices: " + ex->ctx.ChoiceString() + "\ntrace:";
+    for (auto& l : ex->ctx.trace) v += "\n  " + l;
+    ex->violations.insert(ex->violations.begin(), v);
+    if (ex->out) std::fflush(ex->out);
+    ex->Report();
+  }
+  std::_Exit(1);
+}
+
+void CheckAlive(const void* obj) {
+  if (gDeadEvents.empty() || vx::gCtx == nullptr || vx::gCtx->Cur()[0] != 'p') return;  // only the producers: the waiter reuses its own stack
+  auto* p = reinterpret_cast<const char*>(obj);
+  for (auto& r : gDeadEvents) {
+    if (r.first <= p && p < r.second) {
+      FatalViolation("a completion touched the waiter's event after the wait had returned (stack use after return)");
+    }
+  }
+}
+
+// extent of the untraced wait event of Future::Get() && / SharedFuture::Get(): Wait(*this) with the default event, one future
+using GetEvent = yaclib::detail::MultiEvent<yaclib::detail::DefaultEvent, yaclib::detail::OneCounter, yaclib::detail::CallCallback>;
+std::ptrdiff_t gGetCallbackOffset = 0;
+
 void ComputeCountOffset() {
+  {
+    GetEvent sample{1};
+    gGetCallbackOffset = reinterpret_cast<char*>(static_cast<yaclib::detail::InlineCore*>(&sample.GetCall())) -
+                         reinterpret_cast<char*>(&sample);
+  }
   using AC = yaclib::detail::AtomicCounter<TracedEvent, yaclib::detail::SetDeleter>;
   AC sample{1};
   gCountOffset = reinterpret_cast<char*>(&sample.count) - reinterpret_cast<char*>(static_cast<TracedEvent*>(&sample));
@@ -98,6 +146,7 @@ struct Scenario {
   std::vector<CallSpec> calls;
   std::vector<std::string> fin;  // none | attach | get
   std::vector<long long> delay;  // producer i sleeps this long (virtual ns) before Set
+  bool presub = false;           // every shared future already has a subscriber (SubscribeInline) when the waiter starts
   bool Shared(int i) const { return kind == "shared" || (kind == "mixed" && i > 0); }
   std::string Header() const {
     auto join = [](const std::vector<std::string>& v) {
@@ -114,7 +163,7 @@ struct Scenario {
     }
     for (auto d : delay) dl.push_back(std::to_string(d));
     return "wait n=" + std::to_string(n) + " res=" + join(res) + " shared=" + join(sh) + " calls=" + join(cs) +
-           " fin=" + join(fin) + " kind=" + kind + " impl=" + join(impl) + " delay=" + join(dl);
+           " fin=" + join(fin) + " kind=" + kind + " impl=" + join(impl) + " delay=" + join(dl) + (presub ? " presub=1" : "");
   }
 };
 
@@ -124,6 +173,8 @@ struct CallObs {
 };
 
 struct Observed {
+  std::vector<int> subinv;            // invocations of the earlier subscriber of shared future i
+  std::vector<std::string> subval;
   std::vector<int> invoked, got;
   std::vector<std::string> val;
   std::vector<CallObs> calls;
@@ -187,8 +238,11 @@ bool CallOn(const CallSpec& c, V& fs) {
 
 void RunScenario(const Scenario& sc) {
   QuarantineScope quarantine;
+  gDeadEvents.clear();
   gObs = Observed{};
   gObs.invoked.assign(sc.n, 0);
+  gObs.subinv.assign(sc.n, 0);
+  gObs.subval.assign(sc.n, "");
   gObs.got.assign(sc.n, 0);
   gObs.val.assign(sc.n, "");
   gObs.calls.assign(sc.calls.size(), CallObs{});
@@ -202,6 +256,15 @@ void RunScenario(const Scenario& sc) {
   for (int i = 0; i < sc.n; ++i) {
     if (sc.Shared(i)) {
       auto [f, p] = yaclib::MakeSharedContract<int>();
+      if (sc.presub) {
+        // an earlier consumer of the shared future (registered before the word is traced)
+        f.SubscribeInline([i](const yaclib::Result<int>& r) {
+          ++gObs.subinv[i];
+          gObs.subval[i] = Show(r);
+          vx::Ev("subinv " + std::to_string(i) + " " + gObs.subval[i]);
+        });
+        ctx.NameValWord(*reinterpret_cast<const std::uintptr_t*>(&Peek::Word(*f.GetCore())), "sub" + std::to_string(i));
+      }
       ctx.NameObj(&Peek::Word(*f.GetCore()), "w" + std::to_string(i));
       sf[i] = std::move(f);
       sp[i] = std::move(p);
@@ -340,6 +403,9 @@ std::string Monitor(const Scenario& sc, bool done) {
         in_get = t[4] == "get";
         dec1.assign(sc.n, false);
         multi = false;
+      } else if (t[2] == "subinv") {
+        int i = std::atoi(t[3].c_str());
+        if (!completed[i]) return "the earlier subscriber of shared future " + std::to_string(i) + " ran before that future was fulfilled";
       } else if (t[2] == "got") {
         in_get = false;
         int i = std::atoi(t[3].c_str());
@@ -371,6 +437,11 @@ std::string Monitor(const Scenario& sc, bool done) {
   }
   for (int i = 0; i < sc.n; ++i) {
     std::string want = sc.res[i];
+    if (sc.presub && sc.Shared(i)) {
+      if (gObs.subinv[i] != 1)
+        return "the earlier subscriber of shared future " + std::to_string(i) + " was invoked " + std::to_string(gObs.subinv[i]) + " times";
+      if (gObs.subval[i] != want) return "the earlier subscriber of shared future " + std::to_string(i) + " saw " + gObs.subval[i];
+    }
     if (sc.fin[i] == "attach") {
       if (gObs.invoked[i] != 1) return "continuation of future " + std::to_string(i) + " invoked " + std::to_string(gObs.invoked[i]) + " times";
       if (gObs.val[i] != want) return "continuation saw " + gObs.val[i] + " instead of " + want;
@@ -428,6 +499,11 @@ std::vector<Scenario> AllScenarios(bool thorough) {
   out.push_back({2, "shared", resOf(2, false), {{0, 2, false, 0, 'v', false}}, {"get", "none"}, {0, 0}});
   out.push_back({2, "shared", resOf(2, true), {{0, 2, false, 0, 'i', false}}, {"none", "get"}, {0, 0}});
   out.push_back({2, "mixed", resOf(2, false), {{0, 2, false, 0, 'v', false}}, {"attach", "get"}, {0, 0}});
+  // shared futures that already have a consumer: the waiter's node goes on top of a non-empty list
+  out.push_back({1, "shared", resOf(1, false), {{0, 1, false, 0, 'v', false}}, {"get"}, {0}, true});
+  out.push_back({2, "shared", resOf(2, false), {{0, 2, false, 0, 'v', false}}, {"get", "none"}, {0, 0}, true});
+  out.push_back({2, "shared", resOf(2, true), {{0, 2, false, 0, 'i', false}}, {"none", "get"}, {0, 20}, true});
+  out.push_back({3, "mixed", resOf(3, false), {{0, 3, false, 0, 'v', false}}, {"attach", "none", "get"}, {0, 0, 0}, true});
   out.push_back({3, "mixed", resOf(3, false), {{0, 3, false, 0, 'v', false}}, {"get", "get", "none"}, {0, 0, 0}});
   if (thorough) {
     for (long long ns : {5LL, 15LL, 25LL, 35LL, 45LL, 55LL, 65LL}) {
@@ -448,6 +524,28 @@ int main(int argc, char** argv) {
   for (int i = 1; i < argc; ++i) thorough |= std::string(argv[i]) == "--thorough";
   ComputeCountOffset();
   vx::Explorer ex(opt);
+  // every atomic / mutex / wait-queue operation is first checked against the destroyed wait events of this execution
+  yaclib::verif::gHooks.on_atomic = [](void* c, const void* obj, int op, int so, int fo, unsigned long long a,
+                                       unsigned long long e, unsigned long long r, int ok) {
+    CheckAlive(obj);
+    auto* ctx = static_cast<vx::Ctx*>(c);
+    if ((op == yaclib::verif::kCasStrong || op == yaclib::verif::kCasWeak) && ok != 0 && !gDeadEvents.empty() && ctx->Cur() == "c" &&
+        a != 0 && a != ~0ULL) {
+      // the waiter registers a callback: if it is the node of Get's untraced wait event, a dead event overlapping that event's
+      // extent has been overwritten — its stack slot lives again (traced events do this in their constructor)
+      auto* p = reinterpret_cast<const char*>(static_cast<std::uintptr_t>(a));
+      for (auto it = gDeadEvents.begin(); it != gDeadEvents.end();) {
+        const char* b = p - gGetCallbackOffset;
+        if (it->first < b + sizeof(GetEvent) && b < it->second) it = gDeadEvents.erase(it);
+        else ++it;
+      }
+    }
+    ctx->OnAtomic(obj, op, so, fo, a, e, r, ok);
+  };
+  yaclib::verif::gHooks.on_sync = [](void* c, const void* obj, int op, int res) {
+    static_cast<vx::Ctx*>(c)->OnSync(obj, op, res);
+    CheckAlive(obj);
+  };
   for (auto& sc : AllScenarios(thorough)) {
     ex.Run(sc.Header(), [&] { RunScenario(sc); }, [&](bool done) { return Monitor(sc, done); });
   }
